@@ -378,6 +378,10 @@ class ExprMixin:
                         if hit is not None:
                             const = hit if isinstance(op, ast.In) else not hit
             elif isinstance(op, (ast.Eq, ast.NotEq)):
+                from .av import CONTAINER_TYPES, all_deps as _all_deps
+                for side in (cur, right):
+                    if side.types is not None and side.types and side.types <= CONTAINER_TYPES:
+                        deps |= _all_deps(side)          # two lists / sets / dicts are equal iff their elements are
                 self.ev(frame, st, "compare", n, args=(cur, right), attr="eq" if isinstance(op, ast.Eq) else "ne")
                 r = self.try_dunder(cur, "__eq__", [right], n, st, frame, only_interesting=True)
                 if r is not None:
